@@ -41,6 +41,7 @@ def shards(tier, seed):
 
 
 OK_CONTAINER = (der.UnexpectedDER, UnknownCurveError)
+_BL = {"i": 0}
 
 
 def judge_bytes(ctx, curve, dom, data, cls, key, container="string", enc_hint="?"):
@@ -63,7 +64,9 @@ def judge_bytes(ctx, curve, dom, data, cls, key, container="string", enc_hint="?
             tt = False
     try:
         if container == "string":
-            vk = ecdsa.VerifyingKey.from_string(data, curve, hashlib.sha256)
+            _BL["i"] += 1
+            arg = data if _BL["i"] % 4 else (bytearray(data) if _BL["i"] % 8 else memoryview(bytes(data)))
+            vk = ecdsa.VerifyingKey.from_string(arg, curve, hashlib.sha256)
         elif container == "der":
             vk = ecdsa.VerifyingKey.from_der(der_ref.spki(tuple(curve.oid), data), hashlib.sha256)
         else:
